@@ -320,7 +320,7 @@ func mutate(rng *rand.Rand, raw []byte, corpus []rtpkt.Named) ([]byte, string) {
 		case op < 5 && len(b) > 0: // structural field to an interesting value
 			fs := fields(b)
 			o := fs[rng.Intn(len(fs))]
-			if o >= len(b) {
+			if o >= len(b) || op == 4 { // op 4: any byte (L4 headers, SCMP quotes and their inner headers)
 				o = rng.Intn(len(b))
 			}
 			v := vals[rng.Intn(len(vals))]
